@@ -10,10 +10,10 @@ import (
 
 	"github.com/attestantio/dirk/core"
 	"github.com/attestantio/dirk/rules"
-	spec "github.com/attestantio/go-eth2-client/spec/phase0"
 	hc "github.com/attestantio/dirk/zzverif/hcommon"
 	"github.com/attestantio/dirk/zzverif/stubs"
 	"github.com/attestantio/dirk/zzverif/vsym"
+	spec "github.com/attestantio/go-eth2-client/spec/phase0"
 )
 
 const max63 = uint64(1) << 63
